@@ -1,10 +1,8 @@
 (* C01 Canonical round trip: parse -> format -> parse is a fixpoint (both instantiations) *)
 Load "coq/props/Hdr".
 From PM Require Import BuildG C01P.
-Lemma src_rt : rt_ok cfg. Proof. apply conds_rt_ok. vm_compute. reflexivity. Qed.
-Lemma src_tbl : tbl_ok cfg. Proof. apply conds_tbl_ok. vm_compute. reflexivity. Qed.
-Lemma src_cfg_ok : cfg_ok cfg. Proof. exact (rt_cfg _ src_rt). Qed.
-Ltac sc := sidecond_with src_rt src_tbl.
+Lemma src_rt : rt_ok cfg. Proof. prove_rt. Qed.
+Lemma src_cfg_ok : cfg_ok cfg. Proof. sc. Qed.
 Theorem C01_generic_purl : forall s t p, parse cfg G s = Ok (t, p) ->
   format_panics cfg G t = false /\ parse cfg G (format cfg G t p) = Ok (t, p).
 Proof. intros s t p. apply (C01_G cfg src_rt); sc. Qed.
